@@ -175,7 +175,7 @@ fn highlight(req: &Value) -> Value {
 
 /// semantic highlighting of a single file, whole document or a byte range: {"text":.., "range":[s,e]|null}
 fn semhl(req: &Value) -> Value {
-    let (host, file) = AnalysisHost::new_single_file(req["text"].as_str().unwrap());
+    let (host, file) = host_for(req);
     let a = host.snapshot();
     let range = req["range"].as_array().map(|r| syntax::TextRange::new((r[0].as_u64().unwrap() as u32).into(), (r[1].as_u64().unwrap() as u32).into()));
     match a.syntax_highlight(file, range) {
